@@ -99,6 +99,14 @@ Theorem C06_run_loop_invariant_holds : forall P s e now acts, Fire_ok (run_at P 
 Proof. exact run_fire_ok. Qed.
 Print Assumptions C06_run_loop_invariant_holds.
 
+(* ... hence, for every schedule: whenever the run is live and the loop has blocked, every wake-up still pending lies strictly
+   in the future - a retry is started no LATER than the first time the loop looks at the heap once its delay has elapsed *)
+Theorem C06_run_loop_nothing_due_is_left_behind : forall P s e now acts,
+  Runner.outcome (run_at P s e now acts) = ORunning ->
+  Forall (fun w : Z * Z * tick => clock (run_at P s e now acts) < fst (fst w)) (wakeups (run_at P s e now acts)).
+Proof. exact run_no_due_wakeup_left_behind. Qed.
+Print Assumptions C06_run_loop_nothing_due_is_left_behind.
+
 (* non-vacuity: a step fails at clock 100, its policy says "retry after 8": nothing fires while the clock stands at
    104; at 108 the retry fires, logged as (108, _, 108) *)
 Example C06_run_loop_nonvacuous :
